@@ -38,6 +38,8 @@ type c04attr struct {
 	alt  []any    // map: other values per key
 	// keyed: entries as (key, base entry, final entry)
 	entries [][3]any
+	// variant distinguishes two rows on the same path (part of the case id only)
+	variant string
 }
 
 func c04table() []c04attr {
@@ -117,6 +119,9 @@ func c04table() []c04attr {
 			fin: []any{m("aliases", []any{"a1"}), nil}, alt: []any{nil, nil}},
 		// keyed lists: later entry with the same key wins
 		{path: "S.volumes", class: "keyed", entries: [][3]any{{"/t1", "named:/t1", "./src:/t1:ro"}, {"/t2", "./a:/t2", "named:/t2"}, {"/t3", "/abs:/t3", "./b:/t3"}}},
+		// the same keys spelled in another way on the earlier side (a target that is not in clean form, a protocol left to its default)
+		{path: "S.volumes", variant: "~key-spellings", class: "keyed", entries: [][3]any{{"/t1", "named:/t1/", "./src:/t1:ro"}, {"/t2", "./a:/t2/./", "named:/t2"}, {"/t3", "/abs:/t3", "./b:/x/../t3"}}},
+		{path: "S.ports", variant: "~key-spellings", class: "keyed", entries: [][3]any{{"3000", "8000:3000/tcp", "8000:3000"}, {"3001", "8001:3001", "8001:3001/tcp"}}},
 		{path: "S.ports", class: "keyed", entries: [][3]any{{"3000", "8000:3000", "8000:3000"}, {"3001", "8001:3001/udp", "8001:3001/udp"}, {"3002", "127.0.0.1:8002:3002", "127.0.0.1:8002:3002"}}},
 		{path: "S.devices", class: "keyed", entries: [][3]any{{"/dev/b", "/dev/a:/dev/b", "/dev/c:/dev/b:r"}, {"/dev/e", "/dev/d:/dev/e", "/dev/f:/dev/e"}}},
 		{path: "S.secrets", class: "keyed", entries: [][3]any{{"sec", "sec", m("source", "sec", "mode", 256)}, {"/x", m("source", "sec", "target", "/x"), m("source", "sec2", "target", "/x")},
@@ -474,7 +479,7 @@ func (c04) Run(c *core.Ctx) {
 					return
 				}
 				a, sp, delivery := a, sp, delivery
-				id := fmt.Sprintf("%s/%s/%s/%s", a.path, a.class, sp.id, delivery)
+				id := fmt.Sprintf("%s%s/%s/%s/%s", a.path, a.variant, a.class, sp.id, delivery)
 				c.Do(id, func() core.Outcome {
 					target := mapToYAML(c04doc(a.path, sp.target, true))
 					base := mapToYAML(c04doc(a.path, sp.base, sp.basePresent))
@@ -576,7 +581,7 @@ func c04threeWay(c *core.Ctx, table []c04attr) {
 						return
 					}
 					a, sp, parts, delivery := a, sp, parts, delivery
-					id := fmt.Sprintf("%s/%s/%s/part%d/%s", a.path, a.class, sp.id, pi, delivery)
+					id := fmt.Sprintf("%s%s/%s/%s/part%d/%s", a.path, a.variant, a.class, sp.id, pi, delivery)
 					c.Do(id, func() core.Outcome {
 						target := mapToYAML(c04doc(a.path, sp.target, true))
 						base := mapToYAML(c04doc(a.path, sp.base, sp.basePresent))
